@@ -13,7 +13,7 @@ C06 -- index expressions on arrays and views. Decided statically:
  R7  a view keeps nothing it has read (shared stateless-handle rule)
 """
 import itertools
-from .common import Ctx, describe_path
+from .common import io_names, Ctx, describe_path
 from nixsa.px import explore, Config
 from nixsa.px_core import Budget
 from nixsa.model import AnalysisError
@@ -70,7 +70,7 @@ def layer_region_rule(M, rep, R1):
 def view_transform(c):
     """DataView's index transformation: by name, else the private helper both DataView._read_data and _write_data call"""
     from .common import private_helper
-    return private_helper(c, "DataView", "_transform_coordinates", [("DataView", "_read_data", "methods"), ("DataView", "_write_data", "methods")],
+    return private_helper(c, "DataView", "_transform_coordinates", [("DataView", io_names(c)[0], "methods"), ("DataView", io_names(c)[1], "methods")],
                           pick=lambda h: h.cls is not None and h.cls.name == "DataView")
 
 
@@ -98,7 +98,8 @@ def run(M, rep, tier, only=None):
     tcf = view_transform(ctx)
     if tcf is not None:
         ictx.cfg.opaque[tcf.qual] = ("py", "tuple")
-    for nm in ("_read_data", "_write_data"):
+    RD, WR = io_names(ctx)
+    for nm in (RD, WR):
         f = ctx.member("DataView", nm)
         key = "DataView." + nm
         if f is None:
@@ -123,9 +124,9 @@ def run(M, rep, tier, only=None):
                 ninv += 1
                 if any(e.kind in ("layer", "raw") for e in p.events):
                     bad = (p, "an invalid view touches storage")
-                if nm == "_write_data" and p.normal:
+                if nm == WR and p.normal:
                     bad = (p, "writing through an invalid view is not refused")
-                if nm == "_read_data" and (not p.normal or "array" not in show(p.terminal[1].t)):
+                if nm == RD and (not p.normal or "array" not in show(p.terminal[1].t)):
                     bad = (p, "reading an invalid view does not give an empty array")
         rep.check(R5, key, bad is None and ninv > 0, bad[1] if bad else "validity is not consulted", site=f.file + ":%d" % f.node.lineno,
                   detail=describe_path(bad[0]) if bad else None)
@@ -380,7 +381,7 @@ def run(M, rep, tier, only=None):
                   detail=describe_path(bad[0]) if bad else None)
 
     # ---------------------------------------------------------------- R6
-    rdm = ctx.member("DataArray", "_read_data")
+    rdm = ctx.member("DataArray", RD)
     if rdm is None:
         rep.bad(R6, "DataArray._read_data", "required mechanism not found")
     else:
